@@ -350,5 +350,21 @@ fn main() {
         run.bound("scale: inputs of 9..300 records with up to 195 dependencies and 49 scan files per record; long lines through a 16-byte buffered faulty reader");
         run.merge(t);
     }
+    // character sweep: every non-blank ASCII and special non-ASCII character in names, values and keys
+    {
+        let mut t = Tally::new();
+        let chars: Vec<char> = mc_core::chars::all().into_iter().filter(|c| !c.is_whitespace()).collect();
+        run.bound(format!("character sweep: {} characters in five line positions", chars.len()));
+        for c in chars {
+            for line in [
+                format!("PKGNAME=b{}-2", c), format!("MAINTAINER={}", c), format!("MAINTAINER=x{}y", c), format!("MAINT{}AINER=x", c), format!("{}PKGNAME=z-9", c),
+            ] {
+                let text = format!("PKGNAME=a-1\nCATEGORIES=c\n{}\nRESTRICTED=r\nPKGNAME=c-3\nMAINTAINER=m\n", line);
+                t.states += 1;
+                check_text(&mut t, &text);
+            }
+        }
+        run.merge(t);
+    }
     run.finish();
 }
